@@ -3,10 +3,10 @@
 // Contracts for deductive verification (read by /verif/govc). Comment-only: this file adds no code.
 package keeper
 
-//@ store Pledge     kv=node/Pledge/value/     key=node_PledgeKey     val=github.com/SaoNetwork/sao/x/node/types.Pledge
-//@ store PledgeDebt kv=node/PledgeDebt/value/ key=node_PledgeDebtKey val=github.com/SaoNetwork/sao/x/node/types.PledgeDebt
+//@ store Pledge     kv=node/Pledge/value/     key=node_PledgeKey     val=github.com/SaoNetwork/sao/x/node/types.Pledge keyfield=Creator
+//@ store PledgeDebt kv=node/PledgeDebt/value/ key=node_PledgeDebtKey val=github.com/SaoNetwork/sao/x/node/types.PledgeDebt keyfield=Sp
 //@ store Pool       kv=node/Pool/value/       key=byte0              val=github.com/SaoNetwork/sao/x/node/types.Pool
-//@ store Node       kv=node/Node/value/       key=node_NodeKey       val=github.com/SaoNetwork/sao/x/node/types.Node
+//@ store Node       kv=node/Node/value/       key=node_NodeKey       val=github.com/SaoNetwork/sao/x/node/types.Node keyfield=Creator
 
 //@ param github.com/SaoNetwork/sao/x/node/types.KeyBlockReward Coin
 //@ param github.com/SaoNetwork/sao/x/node/types.KeyBaseLine Coin
@@ -360,7 +360,7 @@ package keeper
 //@   loop L1 invariant forall j int :: 0 <= j && j < len(nodes) ==> has(Node, nodes[j].Creator) && Node[nodes[j].Creator] == nodes[j] && nodes[j].Role == 0
 //@   loop L1 invariant forall j int :: 0 <= j && j < len(nodes) ==> has(Pledge, nodes[j].Creator)
 //@       && Pledge[nodes[j].Creator].TotalStorage - Pledge[nodes[j].Creator].UsedStorage >= size0 && (13 & nodes[j].Status) == 13 && nodes[j].Reputation >= 8000
-//@   loop L1 invariant forall a int, b int :: 0 <= a && a < b && b < len(nodes) ==> nodes[a].Creator != nodes[b].Creator
+//@   loop L1 invariant forall a int, b int :: 0 <= a && a < len(nodes) && 0 <= b && b < len(nodes) && a != b ==> nodes[a].Creator != nodes[b].Creator
 //@   loop L1 invariant forall m int, j int :: 0 <= m && m <= rangeindex && 0 <= j && j < len(nodes) ==> nodes[j].Creator != ignore0[m]
 //@   loop L1 decreases [C02.sp.term] len(ignore0) - rangeindex
 //@   loop L2 invariant -1 <= rangeindex && rangeindex < len(nodes)
